@@ -1,6 +1,387 @@
+/-
+  C06 — LAN session establishment and sequence numbering follow the IPMI v1.5 protocol.
+
+  Model: `PyIpmi.Session` (Model/Session.lean) mirrors `Rmcp.establish_session`, the retry loop of
+         `_send_and_receive` (every attempt packs anew), `send_and_receive_raw`, `close_session`;
+         the preference tuple of `get_max_auth_type`, the set of types `IpmiMsg.pack` implements and
+         the capability bits are GENERATED (Gen/RmcpFormats.lean: `authPreference`, `packAuth`, `capsBits`).
+  Spec:  `PyIpmi.Spec.BmcSession` — reference IPMI v1.5 BMC that validates every datagram (`step`), its
+         monitor half for datagrams that get lost (`stepLost`), the BMC behind a lossy network (`lossy`).
+  `md5` is any digest function with 16-byte output.  "Conforming" (`Setup`): BMC and console configured
+  with the same user / password / privilege level, 32-bit ids and sequence numbers, a 16-byte challenge,
+  and the BMC offers at least one authentication type the library implements.  All statements are for
+  every capability byte, every temporary / final session id, every assigned initial sequence number
+  (0xFFFFFFFE / 0xFFFFFFFF included), every user name / password up to 16 bytes, every privilege level
+  below 16, every number `n` of requests, every `max_retries`.
+
+  handshake
+  * `handshake_order`            against ANY peer (arbitrary answers, garbage, silence): one ping, then Get Channel
+                                 Authentication Capabilities, Get Session Challenge, Activate Session, Set Session
+                                 Privilege Level, in this order, each at most max_retries+1 times, none before its
+                                 predecessor; success ⇒ all were sent
+  * `handshake_order_no_retry`   max_retries = 0: the kinds are a prefix of the five; a proper prefix ⇒ error outcome
+  * `handshake_conforming`       against any peer that relays a conforming BMC and loses ≤ R ≤ max_retries datagrams per
+                                 request: success; the first two requests are outside any session (auth none, id 0,
+                                 seq 0) and name the configured privilege / the chosen type and the configured user;
+                                 Activate Session goes under the TEMPORARY session id with the chosen type and a
+                                 valid auth code and echoes the challenge, the configured privilege level and the
+                                 (pinned) random outbound sequence number; Set Session Privilege Level opens the chain
+  * `handshake_bmc`              the BMC itself: exactly the five datagrams
+  authentication type
+  * `auth_strength_order`        implemented ∩ strength order = MD5 > password > none (from the generated dispatch)
+  * `auth_choice`                for EVERY capability byte the generated `get_max_auth_type` returns the strongest
+                                 offered type that is implemented; an unimplemented one only if none is
+  * `auth_choice_cases`          spelled out: MD5 if offered, else password if offered, else none if offered
+  * `auth_choice_all_subsets`    the same, checked by evaluation for all 64 support bytes (32 subsets × reserved bit 3)
+  * `auth_choice_asShipped_counterexample`  the pinned order (md5, md2, …) picks MD2 for {MD2, password}
+  sequence numbers, requests, close
+  * `seq_step`                   `increment_sequence_number` = the specification's successor for all 32-bit values:
+                                 +1, 0xFFFFFFFE ↦ 0xFFFFFFFF ↦ 1, never 0, stays 32-bit; the first value is inside
+                                 the acceptance window of the assigned one
+  * `bmc_never_objects`          ∀ n: the reference BMC run over establish ++ n requests ++ close answers every
+                                 datagram (no protocol error), ends closed; n + 6 datagrams
+  * `session_datagrams`          ∀ n: the datagrams after Activate Session carry the chosen type, the granted id, a
+                                 valid auth code and sequence numbers nextSeq^(i+1)(initial), i = 0 … n+1
+  * `close_names_sid`            the last datagram is Close Session for the granted id; the session object ends
+                                 de-activated
+  * `close_again_sends_nothing`  closing a de-activated session sends nothing
+  * `retransmissions_take_next_seq`   ∀ loss patterns with ≤ max_retries losses in a row: the life cycle completes and
+                                 ALL in-session datagrams transmitted (retransmissions included) form one chain of
+                                 consecutive sequence numbers; the monitor over the wire flags none
+  * `lifecycle_within_budget`    the general statement (any relaying peer) from which the two above follow
+  * `monitor_sees_all`           for any relaying peer, any configuration, any outcome: the monitor state is the
+                                 monitor run over exactly the datagrams listed as sent
+-/
+import PyIpmi.Lemmas.SessionRun
+import PyIpmi.Lemmas.SessionAuth
+import PyIpmi.Lemmas.SessionOrder
+import PyIpmi.Lemmas.SessionMonitor
+import PyIpmi.Lemmas.SessionWire
 import PyIpmi.Model.Md5
-import PyIpmi.Model.Session
-import PyIpmi.Spec.BmcSession
 namespace PyIpmi.Props.C06
-theorem placeholder : PyIpmi.Session.prefAsShipped ≠ PyIpmi.Session.prefIntended := by decide
+open PyIpmi PyIpmi.RmcpWire PyIpmi.Session PyIpmi.Gen.RmcpFormats PyIpmi.Spec.Lan PyIpmi.Spec.BmcSession
+
+/-- the conforming case -/
+structure Setup (b : BmcCfg) (cfg : Cfg) : Prop where
+  conf : Conforming b cfg
+  /-- the console uses the preference tuple generated from `get_max_auth_type` -/
+  pref : cfg.pref = authPreference
+  /-- the BMC offers MD5, straight password or none -/
+  common : offered b.caps 2 = true ∨ offered b.caps 4 = true ∨ offered b.caps 0 = true
+
+/-- the authentication type the property demands: strongest offered among the implemented ones -/
+def wanted (caps : Nat) : Option Nat := strongest caps implOrder
+
+/-- the five steps of the handshake -/
+def order : List Kind := [.ping, .authCap, .challenge, .activate, .setPriv]
+
+/-! ### handshake -/
+
+theorem handshake_order {σ : Type} (md5 : List Nat → List Nat) (P : σ → List Nat → σ × Option (List Nat))
+    (cfg : Cfg) (p0 : σ) (c0 : Client) :
+    ∃ n1 n2 n3 n4, n1 ≤ cfg.maxRetries + 1 ∧ n2 ≤ cfg.maxRetries + 1 ∧ n3 ≤ cfg.maxRetries + 1 ∧
+      n4 ≤ cfg.maxRetries + 1 ∧ (1 ≤ n2 → 1 ≤ n1) ∧ (1 ≤ n3 → 1 ≤ n2) ∧ (1 ≤ n4 → 1 ≤ n3) ∧
+      kinds (establish md5 P cfg p0 c0).sent =
+        [.ping] ++ List.replicate n1 .authCap ++ List.replicate n2 .challenge ++ List.replicate n3 .activate ++
+          List.replicate n4 .setPriv ∧
+      ((establish md5 P cfg p0 c0).outcome.isOk = true → 1 ≤ n4 ∧ (establish md5 P cfg p0 c0).outcome = .ok []) :=
+  establish_order md5 P cfg p0 c0
+
+theorem handshake_order_no_retry {σ : Type} (md5 : List Nat → List Nat) (P : σ → List Nat → σ × Option (List Nat))
+    (cfg : Cfg) (p0 : σ) (c0 : Client) (hR : cfg.maxRetries = 0) :
+    kinds (establish md5 P cfg p0 c0).sent <+: order ∧
+    ((establish md5 P cfg p0 c0).outcome.isOk = true →
+      kinds (establish md5 P cfg p0 c0).sent = order ∧ (establish md5 P cfg p0 c0).outcome = .ok []) ∧
+    (kinds (establish md5 P cfg p0 c0).sent ≠ order → (establish md5 P cfg p0 c0).outcome.isOk = false) := by
+  obtain ⟨n1, n2, n3, n4, h1, h2, h3, h4, g2, g3, g4, hk, hok⟩ := establish_order md5 P cfg p0 c0
+  rw [hR] at h1 h2 h3 h4
+  have key : ∀ (ok4 : 1 ≤ n4), kinds (establish md5 P cfg p0 c0).sent = order := by
+    intro ok4
+    have e4 : n4 = 1 := by omega
+    have e3 : n3 = 1 := by omega
+    have e2 : n2 = 1 := by omega
+    have e1 : n1 = 1 := by omega
+    rw [hk, e1, e2, e3, e4]; rfl
+  refine ⟨?_, fun h => ⟨key (hok h).1, (hok h).2⟩, ?_⟩
+  · rw [hk]
+    have c1 : n1 = 0 ∨ n1 = 1 := by omega
+    have c2 : n2 = 0 ∨ n2 = 1 := by omega
+    have c3 : n3 = 0 ∨ n3 = 1 := by omega
+    have c4 : n4 = 0 ∨ n4 = 1 := by omega
+    rcases c1 with e1 | e1 <;> rcases c2 with e2 | e2 <;> rcases c3 with e3 | e3 <;> rcases c4 with e4 | e4 <;>
+      subst e1 e2 e3 e4 <;> first | omega | (simp [order, List.IsPrefix])
+  · intro hne
+    cases h : (establish md5 P cfg p0 c0).outcome.isOk
+    · rfl
+    · exact absurd (key (hok h).1) hne
+
+theorem handshake_conforming {σ : Type} (md5 : List Nat → List Nat) (hmd5 : ∀ x, (md5 x).length = 16)
+    (b : BmcCfg) (cfg : Cfg) (su : Setup b cfg)
+    (P : σ → List Nat → σ × Option (List Nat)) (π : σ → BmcState) (lostAt : σ → Bool)
+    (rel : Relay md5 b P π lostAt) (R : Nat) (hR : R ≤ cfg.maxRetries) (s0 : σ) (c0 : Client)
+    (hph : (π s0).phase = .start) (hl0 : lostAt s0 = false) (hw : ∀ d, Within P lostAt R 4 (P s0 d).1)
+    (hcp : c0.s.pw = cfg.pw) (hcq : c0.s.seq < 4294967296) :
+    ∃ a ds1 ds2 ds3 ds4, wanted b.caps = some a ∧
+      Handshake md5 b cfg R a (establish md5 P cfg s0 c0).sent ds1 ds2 ds3 ds4 ∧
+      (establish md5 P cfg s0 c0).outcome = .ok [] ∧
+      (π (establish md5 P cfg s0 c0).peer).bad = (π s0).bad := by
+  obtain ⟨a, h1, h2, h3, h4⟩ := chosen_of_common b.caps su.common
+  obtain ⟨ds1, ds2, ds3, ds4, g1, g2, _, g4, _⟩ := establish_run hmd5 su.conf rel R hR 0 s0 c0 a hl0 hw hph
+    (by rw [su.pref]; exact h4) h2 h3 hcp hcq
+  exact ⟨a, ds1, ds2, ds3, ds4, h1, g1, g2, g4⟩
+
+theorem handshake_bmc (md5 : List Nat → List Nat) (hmd5 : ∀ x, (md5 x).length = 16)
+    (b : BmcCfg) (cfg : Cfg) (su : Setup b cfg) (c0 : Client) (hcp : c0.s.pw = cfg.pw) (hcq : c0.s.seq < 4294967296) :
+    ∃ a d1 d2 d3 d4, wanted b.caps = some a ∧
+      (establish md5 (peer md5 b) cfg init c0).sent =
+        [(.ping, pingD), (.authCap, d1), (.challenge, d2), (.activate, d3), (.setPriv, d4)] ∧
+      (establish md5 (peer md5 b) cfg init c0).outcome = .ok [] ∧
+      OutsideSession d1 ∧ Carries d1 56 [0x0e, cfg.priv] ∧
+      OutsideSession d2 ∧ Carries d2 57 (a :: pad16 cfg.user) ∧
+      (∃ p, parseLan d3 = some p ∧ p.auth = a ∧ p.sid = b.tempSid ∧ codeOk md5 cfg.pw p = true) ∧
+      Carries d3 58 ([a, cfg.priv] ++ b.challenge ++ leBytes 4 cfg.outSeq) ∧
+      SessionPacket md5 cfg.pw a b.sid (nextSeq b.inSeq0) d4 ∧ Carries d4 59 [cfg.priv] := by
+  obtain ⟨a, ds1, ds2, ds3, ds4, h1, hs, h2, _⟩ := handshake_conforming md5 hmd5 b cfg su (peer md5 b) id
+    (fun _ => false) relay_self 0 (Nat.zero_le _) init c0 rfl rfl (fun _ => within_self 0 4 _) hcp hcq
+  have one : ∀ (l : List (List Nat)), 1 ≤ l.length ∧ l.length ≤ 0 + 1 → ∃ d, l = [d] := by
+    intro l hl
+    match l, hl with
+    | [d], _ => exact ⟨d, rfl⟩
+    | [], h => simp at h
+    | _ :: _ :: _, h => simp at h <;> omega
+  obtain ⟨d1, e1⟩ := one ds1 hs.len1
+  obtain ⟨d2, e2⟩ := one ds2 hs.len2
+  obtain ⟨d3, e3⟩ := one ds3 hs.len3
+  obtain ⟨d4, e4⟩ := one ds4 hs.len4
+  subst e1 e2 e3 e4
+  refine ⟨a, d1, d2, d3, d4, h1, by rw [hs.sent]; rfl, h2, (hs.authCap d1 (by simp)).1, (hs.authCap d1 (by simp)).2,
+    (hs.challenge d2 (by simp)).1, (hs.challenge d2 (by simp)).2, (hs.activate d3 (by simp)).1,
+    (hs.activate d3 (by simp)).2, hs.setPrivChain.1, hs.setPriv d4 (by simp)⟩
+
+/-! ### authentication type -/
+
+theorem auth_strength_order : implemented = [0, 4, 2] ∧ implOrder = [2, 4, 0] := by decide
+
+theorem auth_choice (caps : Nat) :
+    match wanted caps with
+    | some a => chooseAuth authPreference (caps % 64) = some a
+    | none => ∀ a, chooseAuth authPreference (caps % 64) = some a → a ∉ implemented := by
+  have hg := chooseAuth_generated caps
+  unfold wanted
+  cases h : strongest caps implOrder with
+  | some a => simp only; rw [hg, h]
+  | none =>
+    simp only
+    intro a ha
+    rw [hg, h] at ha
+    have := (strongest_mem caps [1, 5] a ha).1
+    rw [implemented_iff]
+    simp at this
+    omega
+
+theorem auth_choice_cases (caps : Nat) :
+    (offered caps 2 = true → chooseAuth authPreference (caps % 64) = some 2) ∧
+    (offered caps 2 = false → offered caps 4 = true → chooseAuth authPreference (caps % 64) = some 4) ∧
+    (offered caps 2 = false → offered caps 4 = false → offered caps 0 = true →
+      chooseAuth authPreference (caps % 64) = some 0) := by
+  have hg := chooseAuth_generated caps
+  rw [implOrder_eq] at hg
+  refine ⟨fun h2 => ?_, fun h2 h4 => ?_, fun h2 h4 h0 => ?_⟩ <;> rw [hg] <;> simp [strongest, *]
+
+theorem auth_choice_all_subsets :
+    (List.range 64).all (fun caps =>
+      match wanted caps with
+      | some a => chooseAuth authPreference caps == some a
+      | none => (chooseAuth authPreference caps).all (fun a => !implemented.contains a)) = true := by
+  decide
+
+theorem auth_choice_asShipped_counterexample :
+    chooseAuth prefAsShipped 0x12 = some 1 ∧ wanted 0x12 = some 4 ∧ 1 ∉ implemented := by decide
+
+/-! ### sequence numbers -/
+
+theorem seq_step (s : Nat) (h : s < 4294967296) :
+    incSeq s = nextSeq s ∧ nextSeq s ≠ 0 ∧ nextSeq s < 4294967296 ∧ (s < 0xFFFFFFFF → nextSeq s = s + 1) ∧
+    nextSeq 0xFFFFFFFE = 0xFFFFFFFF ∧ nextSeq 0xFFFFFFFF = 1 ∧ inWindow s (nextSeq s) = true := by
+  refine ⟨incSeq_eq_nextSeq s h, nextSeq_ne_zero s, nextSeq_lt s h, ?_, by decide, by decide, inWindow_next s⟩
+  intro hs
+  unfold nextSeq
+  split <;> omega
+
+/-! ### the life cycle -/
+
+theorem lifecycle_within_budget {σ : Type} (md5 : List Nat → List Nat) (hmd5 : ∀ x, (md5 x).length = 16)
+    (b : BmcCfg) (cfg : Cfg) (su : Setup b cfg)
+    (P : σ → List Nat → σ × Option (List Nat)) (π : σ → BmcState) (lostAt : σ → Bool)
+    (rel : Relay md5 b P π lostAt) (R : Nat) (hR : R ≤ cfg.maxRetries) (n : Nat) (s0 : σ) (c0 : Client)
+    (hph : (π s0).phase = .start) (hl0 : lostAt s0 = false) (hw : ∀ d, Within P lostAt R (n + 5) (P s0 d).1)
+    (hcp : c0.s.pw = cfg.pw) (hcq : c0.s.seq < 4294967296) :
+    ∃ a hs ds1 ds2 ds3 ds4 dsr dsc, wanted b.caps = some a ∧ Handshake md5 b cfg R a hs ds1 ds2 ds3 ds4 ∧
+      (lifecycle md5 P cfg n s0 c0).sent = hs ++ tagAll .request dsr ++ tagAll .close dsc ∧
+      (lifecycle md5 P cfg n s0 c0).outcome = .ok [] ∧
+      (π (lifecycle md5 P cfg n s0 c0).peer).phase = .closed ∧
+      (π (lifecycle md5 P cfg n s0 c0).peer).bad = (π s0).bad ∧
+      (lifecycle md5 P cfg n s0 c0).client.s.activated = false ∧
+      Chain md5 cfg.pw a b.sid b.inSeq0 (ds4 ++ dsr ++ dsc) ∧
+      (n ≤ dsr.length ∧ dsr.length ≤ n * (R + 1)) ∧ (1 ≤ dsc.length ∧ dsc.length ≤ R + 1) ∧
+      (∀ d ∈ dsr, Carries d 1 []) ∧ (∀ d ∈ dsc, Carries d 60 (leBytes 4 b.sid)) := by
+  obtain ⟨a, h1, h2, h3, h4⟩ := chosen_of_common b.caps su.common
+  obtain ⟨hs, ds1, ds2, ds3, ds4, dsr, dsc, g⟩ := lifecycle_run hmd5 su.conf rel R hR n s0 c0 a hl0 hw hph
+    (by rw [su.pref]; exact h4) h2 h3 hcp hcq
+  exact ⟨a, hs, ds1, ds2, ds3, ds4, dsr, dsc, h1, g⟩
+
+theorem monitor_sees_all {σ : Type} (md5 : List Nat → List Nat) (b : BmcCfg) (cfg : Cfg)
+    (P : σ → List Nat → σ × Option (List Nat)) (π : σ → BmcState) (lostAt : σ → Bool)
+    (rel : Relay md5 b P π lostAt) (n : Nat) (s0 : σ) (c0 : Client) :
+    ∃ w, w.map Prod.snd = (lifecycle md5 P cfg n s0 c0).sent.map Prod.snd ∧
+      (∀ x ∈ w, x.1 = true → ∃ s, lostAt s = true) ∧
+      π (lifecycle md5 P cfg n s0 c0).peer = runWire md5 b (π s0) w := by
+  obtain ⟨w, hf, he⟩ := lifecycle_wire rel cfg n s0 c0
+  exact ⟨w, hf.1, hf.2, he⟩
+
+theorem bmc_never_objects (md5 : List Nat → List Nat) (hmd5 : ∀ x, (md5 x).length = 16)
+    (b : BmcCfg) (cfg : Cfg) (su : Setup b cfg) (c0 : Client) (hcp : c0.s.pw = cfg.pw) (hcq : c0.s.seq < 4294967296)
+    (n : Nat) :
+    (lifecycle md5 (peer md5 b) cfg n init c0).outcome = .ok [] ∧
+    (lifecycle md5 (peer md5 b) cfg n init c0).sent.length = n + 6 ∧
+    kinds (lifecycle md5 (peer md5 b) cfg n init c0).sent = order ++ List.replicate n .request ++ [.close] ∧
+    run md5 b init ((lifecycle md5 (peer md5 b) cfg n init c0).sent.map Prod.snd) =
+      (lifecycle md5 (peer md5 b) cfg n init c0).peer ∧
+    (verdicts md5 b init ((lifecycle md5 (peer md5 b) cfg n init c0).sent.map Prod.snd)).all Verdict.isReply = true ∧
+    (lifecycle md5 (peer md5 b) cfg n init c0).peer.phase = .closed ∧
+    (lifecycle md5 (peer md5 b) cfg n init c0).peer.bad = none := by
+  obtain ⟨a, hs, ds1, ds2, ds3, ds4, dsr, dsc, _, hh, h1, h2, h3, h4, _, _, h7, h8, _, _⟩ :=
+    lifecycle_within_budget md5 hmd5 b cfg su (peer md5 b) id (fun _ => false) relay_self 0 (Nat.zero_le _) n init c0
+      rfl rfl (fun _ => within_self 0 _ _) hcp hcq
+  obtain ⟨w, w1, w2, w3⟩ := monitor_sees_all md5 b cfg (peer md5 b) id (fun _ => false) relay_self n init c0
+  have hnl : ∀ x ∈ w, x.1 = false := by
+    intro x hx
+    cases hx1 : x.1
+    · rfl
+    · obtain ⟨s, hs⟩ := w2 x hx hx1; simp at hs
+  have hrun : run md5 b init ((lifecycle md5 (peer md5 b) cfg n init c0).sent.map Prod.snd) =
+      (lifecycle md5 (peer md5 b) cfg n init c0).peer := by
+    rw [← w1, ← runWire_noloss md5 b w hnl]; exact w3.symm
+  have hbad : (lifecycle md5 (peer md5 b) cfg n init c0).peer.bad = none := h4
+  have l1 := hh.len1; have l2 := hh.len2; have l3 := hh.len3; have l4 := hh.len4
+  have klen : ∀ (k : Kind) (l : List (List Nat)), (tagAll k l).length = l.length := by intro k l; simp [tagAll]
+  refine ⟨h2, ?_, ?_, hrun, ?_, h3, hbad⟩
+  · rw [h1, hh.sent]
+    simp only [List.length_append, List.length_cons, klen]
+    omega
+  · have e1 : ds1.length = 1 := by omega
+    have e2 : ds2.length = 1 := by omega
+    have e3 : ds3.length = 1 := by omega
+    have e4 : ds4.length = 1 := by omega
+    have er : dsr.length = n := by omega
+    have ec : dsc.length = 1 := by omega
+    rw [h1, hh.sent]
+    simp [kinds, order, tagAll, e1, e2, e3, e4, er, ec, List.map_map, Function.comp_def, List.map_const']
+  · have := (run_bad_none_iff md5 b _ init).mp (by rw [hrun]; exact hbad)
+    exact this.2
+
+theorem session_datagrams (md5 : List Nat → List Nat) (hmd5 : ∀ x, (md5 x).length = 16)
+    (b : BmcCfg) (cfg : Cfg) (su : Setup b cfg) (c0 : Client) (hcp : c0.s.pw = cfg.pw) (hcq : c0.s.seq < 4294967296)
+    (n : Nat) :
+    ∃ a ds, wanted b.caps = some a ∧ ds.length = n + 2 ∧
+      ((lifecycle md5 (peer md5 b) cfg n init c0).sent.drop 4).map Prod.snd = ds ∧
+      Chain md5 cfg.pw a b.sid b.inSeq0 ds ∧
+      ∀ i (hi : i < ds.length), SessionPacket md5 cfg.pw a b.sid (seqAfter (i + 1) b.inSeq0) ds[i] := by
+  obtain ⟨a, hs, ds1, ds2, ds3, ds4, dsr, dsc, ha, hh, h1, _, _, _, _, h6, h7, h8, _, _⟩ :=
+    lifecycle_within_budget md5 hmd5 b cfg su (peer md5 b) id (fun _ => false) relay_self 0 (Nat.zero_le _) n init c0
+      rfl rfl (fun _ => within_self 0 _ _) hcp hcq
+  have l1 := hh.len1; have l2 := hh.len2; have l3 := hh.len3; have l4 := hh.len4
+  refine ⟨a, ds4 ++ dsr ++ dsc, ha, by simp only [List.length_append]; omega, ?_, h6, fun i hi => h6.get i hi⟩
+  match ds1, ds2, ds3, l1, l2, l3 with
+  | [d1], [d2], [d3], _, _, _ =>
+    rw [h1, hh.sent]
+    simp [tagAll, List.map_map, Function.comp_def]
+  | [], _, _, h, _, _ => simp at h
+  | _ :: _ :: _, _, _, h, _, _ => simp at h <;> omega
+  | [_], [], _, _, h, _ => simp at h
+  | [_], _ :: _ :: _, _, _, h, _ => simp at h <;> omega
+  | [_], [_], [], _, _, h => simp at h
+  | [_], [_], _ :: _ :: _, _, _, h => simp at h <;> omega
+
+theorem close_names_sid (md5 : List Nat → List Nat) (hmd5 : ∀ x, (md5 x).length = 16)
+    (b : BmcCfg) (cfg : Cfg) (su : Setup b cfg) (c0 : Client) (hcp : c0.s.pw = cfg.pw) (hcq : c0.s.seq < 4294967296)
+    (n : Nat) :
+    ∃ d, (lifecycle md5 (peer md5 b) cfg n init c0).sent.getLast? = some (.close, d) ∧
+      Carries d 60 (leBytes 4 b.sid) ∧
+      (lifecycle md5 (peer md5 b) cfg n init c0).client.s.activated = false := by
+  obtain ⟨a, hs, ds1, ds2, ds3, ds4, dsr, dsc, _, _, h1, _, _, _, h5, _, _, h8, _, h10⟩ :=
+    lifecycle_within_budget md5 hmd5 b cfg su (peer md5 b) id (fun _ => false) relay_self 0 (Nat.zero_le _) n init c0
+      rfl rfl (fun _ => within_self 0 _ _) hcp hcq
+  match dsc, h8, h10 with
+  | [d], _, h10 => exact ⟨d, by rw [h1]; simp [tagAll], h10 d (by simp), h5⟩
+  | [], h, _ => simp at h
+  | _ :: _ :: _, h, _ => simp at h <;> omega
+
+/-- a closed session (the state every successful life cycle ends in, see `close_names_sid`) is not
+closed again: a second `close_session()` puts nothing on the wire -/
+theorem close_again_sends_nothing {σ : Type} (md5 : List Nat → List Nat) (P : σ → List Nat → σ × Option (List Nat))
+    (cfg : Cfg) (p : σ) (c : Client) (h : c.s.activated = false) :
+    close md5 P cfg p c = ⟨p, c, [], .ok []⟩ := by
+  simp [close, h]
+
+theorem retransmissions_take_next_seq (md5 : List Nat → List Nat) (hmd5 : ∀ x, (md5 x).length = 16)
+    (b : BmcCfg) (cfg : Cfg) (su : Setup b cfg) (c0 : Client) (hcp : c0.s.pw = cfg.pw) (hcq : c0.s.seq < 4294967296)
+    (plan : Nat → Bool) (hp0 : plan 0 = false) (hplan : BoundedLoss plan cfg.maxRetries) (n : Nat) :
+    ∃ a hs ds1 ds2 ds3 ds4 dsr dsc w, wanted b.caps = some a ∧
+      Handshake md5 b cfg cfg.maxRetries a hs ds1 ds2 ds3 ds4 ∧
+      (lifecycle md5 (lossy md5 b plan) cfg n (0, init) c0).sent = hs ++ tagAll .request dsr ++ tagAll .close dsc ∧
+      (lifecycle md5 (lossy md5 b plan) cfg n (0, init) c0).outcome = .ok [] ∧
+      Chain md5 cfg.pw a b.sid b.inSeq0 (ds4 ++ dsr ++ dsc) ∧
+      (∀ d ∈ dsr, Carries d 1 []) ∧ (∀ d ∈ dsc, Carries d 60 (leBytes 4 b.sid)) ∧
+      w.map Prod.snd = (lifecycle md5 (lossy md5 b plan) cfg n (0, init) c0).sent.map Prod.snd ∧
+      runWire md5 b init w = (lifecycle md5 (lossy md5 b plan) cfg n (0, init) c0).peer.2 ∧
+      (verdictsWire md5 b init w).all Verdict.isReply = true ∧
+      (lifecycle md5 (lossy md5 b plan) cfg n (0, init) c0).peer.2.phase = .closed := by
+  obtain ⟨a, hs, ds1, ds2, ds3, ds4, dsr, dsc, ha, hh, h1, h2, h3, h4, _, h6, _, _, h9, h10⟩ :=
+    lifecycle_within_budget md5 hmd5 b cfg su (lossy md5 b plan) Prod.snd (fun s => plan s.1) (relay_lossy plan)
+      cfg.maxRetries (Nat.le_refl _) n (0, init) c0 rfl hp0
+      (fun d => within_lossy plan cfg.maxRetries hplan _ _ _) hcp hcq
+  obtain ⟨w, w1, _, w3⟩ := monitor_sees_all md5 b cfg (lossy md5 b plan) Prod.snd (fun s => plan s.1)
+    (relay_lossy plan) n (0, init) c0
+  have hbad : (runWire md5 b init w).bad = none := by rw [← w3]; exact h4
+  exact ⟨a, hs, ds1, ds2, ds3, ds4, dsr, dsc, w, ha, hh, h1, h2, h6, h9, h10, w1, w3.symm,
+    ((runWire_bad_none_iff md5 b w init).mp hbad).2, h3⟩
+
+/-! ### non-vacuity: a concrete conforming BMC and console; the functions compute -/
+
+/-- a 16-byte "digest" that is cheap to evaluate in the kernel -/
+def toyDigest (x : List Nat) : List Nat := List.replicate 16 (x.sum % 256)
+
+/-- a BMC offering MD2, MD5 and password, handing out an initial sequence number one below the wrap -/
+def demoBmc : BmcCfg :=
+  { caps := 0x16, user := [0x61, 0x64, 0x6d], pw := [0x73, 0x65, 0x63], priv := 4, tempSid := 0x01020304,
+    challenge := [1, 2, 3, 4, 5, 6, 7, 8, 9, 10, 11, 12, 13, 14, 15, 16], sid := 0xfffffffe, inSeq0 := 0xfffffffe }
+
+def demoCfg : Cfg :=
+  { user := [0x61, 0x64, 0x6d], pw := [0x73, 0x65, 0x63], priv := 4, outSeq := 0xfffffffe, pref := authPreference,
+    ignoreLen := false, emptyRx := .asShipped, maxRetries := 2 }
+
+example : (PyIpmi.Md5.md5 [1, 2, 3]).length = 16 := PyIpmi.Md5.md5_length _
+example : ∀ x, (toyDigest x).length = 16 := fun _ => by simp [toyDigest]
+
+example : Setup demoBmc demoCfg :=
+  ⟨⟨rfl, rfl, rfl, by decide, by decide, by decide, by decide, by decide, by decide, by decide, by decide, by decide, rfl⟩,
+   rfl, Or.inl (by decide)⟩
+
+example : wanted demoBmc.caps = some 2 := by decide
+example : (Client.fresh demoCfg.pw).s.pw = demoCfg.pw ∧ (Client.fresh demoCfg.pw).s.seq < 4294967296 := by decide
+example : BoundedLoss (fun i => i == 5 || i == 6 || i == 9) 2 := by
+  intro i
+  by_cases h : i = 5
+  · exact ⟨2, by omega, by subst h; decide⟩
+  · by_cases h6 : i = 6
+    · exact ⟨1, by omega, by subst h6; decide⟩
+    · by_cases h9 : i = 9
+      · exact ⟨1, by omega, by subst h9; decide⟩
+      · exact ⟨0, by omega, by simp [h, h6, h9]⟩
+
+/-- the model client against the reference BMC, evaluated: 2 requests, wrap-around crossed -/
+example : (lifecycle toyDigest (peer toyDigest demoBmc) demoCfg 2 init (Client.fresh demoCfg.pw)).outcome = .ok [] := by
+  decide
+
 end PyIpmi.Props.C06
